@@ -327,7 +327,7 @@ impl Network for SNet {
         vclock::advance(dt);
         let now = vclock::get();
         let round = w.round;
-        let mut deliver = |w: &mut SWorld, pe: Pend| -> Response {
+        let deliver = |w: &mut SWorld, pe: Pend| -> Response {
             let s = w.sends[pe.for_send].clone();
             let first = !w.deliveries.iter().any(|d| d.for_send == Some(pe.for_send));
             w.deliveries.push(DelivRec { time_ns: now, round, for_send: Some(pe.for_send), seq: s.seq, is_target: pe.is_target, first, scripted: false });
